@@ -7,5 +7,6 @@ func init() {
 			"error messages are not compared (only error presence), except for the message of a thrown scalar",
 			"functions are compared by type only; channels by content, capacity and closed state; pointers by pointee content",
 			"held sub-check: the baseline of the templates whose operand is the container (destructuring, for-in, spread into a fixed-arity function, `x, ok = c[k]`) stores into a twin container instead of the one read; struct and array values are not generated (anko treats them as references) and pointer items are never iterated",
+			"computed sub-check: the value of a computation is known from Go's int64 / float64 / string arithmetic on operands chosen so that nothing overflows or rounds (only the spelling of the baseline literal depends on it); the holder and the route of the write are the same in both programs, only the origin of the value (operation vs literal) differs - the copy read from a typed-slice element is addressable in both, so & of it points to the variable itself in both; every program writes the original value back through the same pointer, so that a defect in process-wide state does not leak into the next case",
 		)})
 }
